@@ -6,6 +6,10 @@ Payloads (grammar in lean/UPVerif/Drv/C18.lean):
   (read <domain-tree> <problem-tree>)                    PDDL trees in forms the writer never emits
   (plan (ren R*) (steps (a o*)*) <problem'>)             plan text round trip
   (num  q)                                               one rational constant
+  (ttplan (ren R*) <sig> <plan> <problem> <temporal>)    plan text, character level: a time-triggered (or sequential) plan of a
+                                                         temporal problem, written and read back
+  (ttread (ren R*) <sig> (text c*) <problem> <temporal>) a plan text in a form the writer never emits (or a broken one), read
+       sig / plan / text: lean/UPVerif/Drv/C18TTPlan.lean; problem / temporal: upp.build_problem / ttlib.build
 """
 import hashlib
 import random
@@ -18,6 +22,7 @@ from unified_planning.io import PDDLReader, PDDLWriter
 from unified_planning.io.pddl_writer import ConverterToPDDLString
 
 import c18_pddl as cp
+import c18_ttplan as tp
 import sexp
 import upp
 
@@ -36,7 +41,20 @@ RULE = ("rt: generated problems of the PDDL fragment (flat or hierarchical user 
         "plan: 3-step plans over ground instances. num: finite-decimal rationals of 1-40 digits and non-finite ones. "
         "Non-trivial = an rt case whose text has a conditional or universal effect, a quantifier, a numeric expression "
         "with >= 3 operands or a renamed identifier; a read case on which at least one rewrite fired and the reader "
-        "succeeds; every plan case with a renamed name; every num case with > 10 significant digits or a leading-zero fraction.")
+        "succeeds; every plan case with a renamed name; every num case with > 10 significant digits or a leading-zero fraction. "
+        "ttplan: generated temporal problems (1-3 user types, 2-4 objects, 1-2 durative actions with fixed / interval durations "
+        "and at-start / over-all / at-end conditions, 1-2 instantaneous actions; half with adversarial identifiers), "
+        "time-triggered plans of 1-5 entries mixing durative and instantaneous actions in every order (half of them schedules the "
+        "validator can accept), starts and durations over integers, finite decimals of 1-22 digits (below 1e-4, above 1e16) and, "
+        "in a quarter of the cases, rationals without a finite decimal expansion; some sequential plans of the same problems. The "
+        "real writer's text is compared character by character with writePlan, the plans both real readers return on it with "
+        "parsePlanString. ttread: written texts rewritten (blanks / tabs / \\x1f around every token, every line boundary of "
+        "str.splitlines, upper case, comment and blank lines, `5.` `05` `.5` `1e3` `-1` number forms, `[ 5 ]` and broken duration "
+        "brackets, missing / doubled parentheses, trailing junk, names of other kinds, unknown and unmangled names, wrong arity, "
+        "swapped arguments, sequential lines before / after timed ones, glued tokens) and the rounded texts of the inexact "
+        "ttplan cases; both real readers' result (plan or exception class) is compared with parsePlanString. Non-trivial = a "
+        "ttplan case with a durative and an instantaneous entry, or a non-integer time, or a renamed name; a ttread case on "
+        "which a rewrite fired.")
 ASSUMPTIONS = [
     "ASCII identifiers (DESIGN 2.11)",
     "PDDL-expressible fragment = user-typed parameters, Boolean and UNBOUNDED numeric fluents (PDDL has no bounded numeric "
@@ -56,6 +74,11 @@ ASSUMPTIONS = [
     "undefined numeric fluents: only objects and initial state are compared (the simulator raises on partial states)",
     "every action has at least one effect (the writer emits an action's cost inside its :effect section only: an effect-less "
     "action loses its cost — noted, not repaired)",
+    "plan texts: start times and durations are >= 0 (the plan grammar of the reader has no sign; Props/C18TTPlan.lean refutes the "
+    "round trip for a negative start) and a time-triggered plan has at least one entry (the empty text carries no plan kind: it "
+    "is read as the empty SequentialPlan; refuted in Lean as well); names are resolved through the writer's get_item_named",
+    "plan validity is the verdict of TimeTriggeredPlanValidator on the ORIGINAL problem for the written and the re-read plan "
+    "(parse_plan_string maps names back to the original problem's actions and objects)",
     "model side: expressions are fixed points of the real simplifier (checked per case), kind features and the renaming are "
     "taken from the real code (C10, C38 own their models)",
 ]
@@ -63,13 +86,21 @@ MODELLED = [
     "modelled by hand (tied by correspondence): ConverterToPDDLString walkers, _write_domain/_write_problem/_write_effect/"
     "_write_plan layout, domain_constants, initial_values enumeration order; UPPDDLReader._parse_problem/_parse_exp/_add_effect/"
     "cost extraction, parse_plan_string; the repaired convert_fraction",
+    "modelled by hand at character level (Core/PddlTTPlan.lean): _write_plan / _format_action_instance / the repaired time "
+    "format, str.splitlines, the three regular expressions of parse_plan_string as deterministic scanners, line.lower(), "
+    "Fraction(group), the is_tt switch, get_item_named, the isinstance / arity assertions and the type check of ActionInstance, "
+    "TimeTriggeredPlan(actions) on a mixed list",
+    "modelled not verified (plan texts): Python's `re` engine (the scanners are argued equivalent in the file header and tied by "
+    "the ttread cases), non-ASCII characters of \\s / \\w / \\d / str.lower, `format(Decimal(text), 'f')` on a positional "
+    "decimal text (identity), the rounding branch of convert_fraction (the model answers `inexact`)",
     "modelled not verified: pyparsing tokenisation and name lexing (the model starts from trees), str.lower(), the simplifier "
     "(inputs are its fixed points; `when` conditions are compared after simplifying both sides), ProblemKind computation and "
     "name mangling (parameters), type checking and static effect-conflict rejection inside the model builder, "
     "Python set order of :constants and of the variables of a quantifier the simplifier rebuilt (sorted on both sides), the order of Problem.user_types (type table compared sorted), "
     "the external `pddl` package",
 ]
-BUDGET_S = {"quick": 50, "thorough": 420}
+BUDGET_S = {"quick": 60, "thorough": 480}
+EXTRA_PROPS = ["UPVerif.Props.C18TTPlan"]
 SEARCH_S = {"quick": 45, "thorough": 240}
 
 
@@ -144,8 +175,53 @@ def make_num(rng):
     return ["num", cp.q2s(q)]
 
 
+def make_ttplan(rng):
+    """a `ttplan` payload (None when the builders or the writer reject the generated problem)"""
+    ps, temporal = tp.gen_tproblem(rng, adversarial=rng.random() < 0.5)
+    try:
+        prep = tp.prepare(ps, temporal)
+    except Exception:
+        return None
+    if rng.random() < 0.12:
+        plan = tp.gen_seq_plan(rng, ps, temporal)
+    else:
+        plan = tp.gen_tt_plan(rng, ps, temporal, allow_nonfinite=rng.random() < 0.25)
+    if plan is None:
+        return None
+    return ["ttplan", prep.ren, prep.sig, plan, ps, temporal]
+
+
+def make_ttread(rng, base=None):
+    """a `ttread` payload: the text the real writer prints for a ttplan case, rewritten; for an inexact base case the
+    rounded text itself"""
+    c = base or make_ttplan(rng)
+    if c is None:
+        return None
+    try:
+        prep = tp.prepare(c[4], c[5])
+        text, inexact = tp.write_text(prep, tp.real_plan(prep, c[3]))
+    except Exception:
+        return None
+    if base is None:
+        text, _tags = tp.mutate_text(rng, prep, text)
+    return ["ttread", c[1], c[2], tp.text_codes(text), c[4], c[5]]
+
+
+def _inexact_plan(plan):
+    return plan[0] == "tt" and any(not _finite(q) for e in plan[1:] for q in (e[0], e[3]) if q != "-")
+
+
+def _finite(q):
+    d = Fraction(q).denominator
+    for p in (2, 5):
+        while d % p == 0:
+            d //= p
+    return d == 1
+
+
 def cases(rng, tier):
     n_rt, n_read, n_plan, n_num = (24, 50, 15, 40) if tier == "quick" else (250, 600, 150, 400)
+    n_ttplan, n_ttread = (60, 60) if tier == "quick" else (600, 600)
     for i in range(n_rt):
         c = None
         for _ in range(5):
@@ -165,6 +241,18 @@ def cases(rng, tier):
             yield c
     for i in range(n_num):
         yield make_num(rng)
+    for i in range(n_ttplan):
+        c = make_ttplan(rng)
+        if c is not None:
+            yield c
+            if _inexact_plan(c[3]):
+                c2 = make_ttread(rng, base=c)
+                if c2 is not None:
+                    yield c2
+    for i in range(n_ttread):
+        c = make_ttread(rng)
+        if c is not None:
+            yield c
 
 
 # ------------------------------------------------------------------------------------------------
@@ -246,11 +334,35 @@ def impl(payload):
         except Exception:
             return ["ok", s, "error"]
         return ["ok", s, cp.q2s(back)]
+    if kind in ("ttplan", "ttread"):
+        try:
+            prep = tp.prepare(payload[4], payload[5])
+        except Exception as e:
+            return ["build-error", type(e).__name__]
+        if prep.ren != payload[1] or prep.sig != payload[2]:
+            return ["stale-derived-data"]
+        if not prep.ren_ok:
+            return ["hypothesis-violated", "RenOK"]      # the hypothesis of the Lean round-trip theorem, on the real writer
+        if kind == "ttread":
+            u, d = tp.read_both(prep, tp.codes_text(payload[3]))
+            return ["read", u, d]
+        try:
+            text, inexact = tp.write_text(prep, tp.real_plan(prep, payload[3]))
+        except Exception:
+            return "unsupported"
+        if inexact:
+            return "inexact"
+        u, d = tp.read_both(prep, text)
+        return ["ok", tp.text_codes(text), u, d]
     return ["unknown-case"]
 
 
 def compare(m, a):
     """model answer vs code answer"""
+    if isinstance(a, list) and a and a[0] == "read" and len(a) == 3:           # ttread: both real readers vs the reader model
+        return m == a[1] and m == a[2]
+    if isinstance(a, list) and a and a[0] == "ok" and len(a) == 4 and isinstance(a[1], list) and a[1][:1] == ["text"]:   # ttplan
+        return isinstance(m, list) and len(m) == 3 and m[0] == "ok" and m[1] == a[1] and m[2] == a[2] and m[2] == a[3]
     if isinstance(m, list) and m and m[0] == "ok" and isinstance(a, list) and a and a[0] == "ok" and len(m) == 5 and len(a) == 5:
         consts = const_names_of(m[1])
         return (cp.canon_domain_tree(m[1]) == a[1] and cp.sort_quant_tree(m[2]) == a[2]
@@ -279,9 +391,59 @@ def _text_features(tree, acc):
             _text_features(t, acc)
 
 
+def _tt_tags(payload, ans):
+    k = payload[0]
+    out = []
+    if k == "ttplan":
+        plan = payload[3]
+        if plan[0] == "seq":
+            out.append("ttplan:sequential")
+        else:
+            acts = {a[0]: a for a in payload[2][3][1:]}
+            dnames = set(d[1] for d in payload[5][1][1:])
+            kinds = set("durative" if e[1] in dnames else "instantaneous" for e in plan[1:])
+            if len(kinds) == 2:
+                out.append("ttplan:mixed-kinds")
+            qs = [Fraction(q) for e in plan[1:] for q in (e[0], e[3]) if q != "-"]
+            if any(q.denominator != 1 for q in qs):
+                out.append("ttplan:non-integer-time")
+            if any(q != 0 and (q < Fraction(1, 10000) or q >= 10 ** 16) and q.denominator != 1 for q in qs):
+                out.append("ttplan:float-exponent-range")
+            if any(not _finite(q) for q in qs):
+                out.append("ttplan:non-finite-decimal")
+            if any(e[3] == "0" for e in plan[1:]):
+                out.append("ttplan:zero-duration")
+            if any(e[3] == "-" for e in plan[1:]) and any(e[3] != "-" for e in plan[1:]):
+                out.append("ttplan:with-and-without-duration")
+            out.append(f"ttplan:len-{len(plan) - 1}")
+            if isinstance(ans, list) and ans and ans[0] == "ok":
+                try:
+                    prep = tp.prepare(payload[4], payload[5])
+                    out.append("ttplan:verdict-" + tp.validate_tt(prep, tp.real_plan(prep, plan)))
+                except Exception:
+                    pass
+        if any(len(r) >= 3 and r[0] in ("action", "obj") and r[-1] != r[1] for r in payload[1][1:]):
+            out.append("ttplan:renamed")
+    if k == "ttread" and isinstance(ans, list) and ans and ans[0] == "read":
+        u = ans[1]
+        out.append("ttread:" + (u[0] if u[0] != "error" else "error-" + u[1]))
+        text = tp.codes_text(payload[3])
+        if any(c in text for c in "\r\x0b\x0c\x1c\x1d\x1e\x85"):
+            out.append("ttread:other-line-boundary")
+        if text != text.lower():
+            out.append("ttread:upper-case")
+        if any(l.strip().startswith(";") for l in text.splitlines()):
+            out.append("ttread:comment-line")
+    return out
+
+
 def stats(payload, ans):
     k = payload[0]
     out = [k]
+    if k in ("ttplan", "ttread"):
+        if isinstance(ans, str):
+            out.append(f"{k}:{ans}")
+        return out + _tt_tags(payload, ans)
     if not (isinstance(ans, list) and ans and ans[0] == "ok"):
         out.append(f"{k}:{ans if isinstance(ans, str) else ans[0]}")
         return out
@@ -347,6 +509,12 @@ def _read_tags(payload):
 
 def nontrivial(payload, ans):
     k = payload[0]
+    if k == "ttplan":
+        t = _tt_tags(payload, ans)
+        return isinstance(ans, list) and ans[0] == "ok" and any(x in t for x in ("ttplan:mixed-kinds", "ttplan:non-integer-time",
+                                                                                  "ttplan:renamed"))
+    if k == "ttread":
+        return isinstance(ans, list) and ans[0] == "read"
     if not (isinstance(ans, list) and ans and ans[0] == "ok"):
         return False
     if k == "rt":
@@ -418,6 +586,18 @@ def oracle(payload):
         if a[2] != want:
             return f"plan written by the writer parses back to {a[2]}, expected {want}"
         return None
+    if k == "ttplan":
+        return _oracle_ttplan(payload[4], payload[5], payload[3])
+    if k == "ttread":
+        # the property applied to the plan this text denotes (if the reader accepts it): write it, read it back
+        try:
+            prep = tp.prepare(payload[4], payload[5])
+        except Exception:
+            return None
+        u, d = tp.read_both(prep, tp.codes_text(payload[3]))
+        if u[0] == "error" or (u[0] == "tt" and len(u) == 1):
+            return None
+        return _oracle_ttplan(payload[4], payload[5], u)
     if k == "num":
         q = Fraction(payload[1])
         d = q.denominator
@@ -433,7 +613,42 @@ def oracle(payload):
     return None
 
 
+def _oracle_ttplan(ps, temporal, plan):
+    """C18's last clause on the real code: the plan written by the writer parses back, with either reader, to an equal plan
+    with the same validator verdict.  Quantifier: times with a finite decimal expansion, >= 0."""
+    if plan[0] == "tt":
+        qs = [Fraction(q) for e in plan[1:] for q in (e[0], e[3]) if q != "-"]
+        if any(not _finite(q) or q < 0 for q in qs):
+            return None
+    try:
+        prep = tp.prepare(ps, temporal)
+        real = tp.real_plan(prep, plan)
+    except Exception:
+        return None          # not a plan of a problem the library accepts
+    try:
+        text, inexact = tp.write_text(prep, real)
+    except Exception as e:
+        return f"the writer raises {type(e).__name__} on the plan {sexp.dumps(plan)[:200]}"
+    if inexact:
+        return f"the writer cannot represent a finite-decimal time exactly: {text!r}"
+    for rname, rd in tp.readers(prep):
+        try:
+            back = tp.ttlib.guarded(lambda: rd.parse_plan_string(prep.P, text, prep.w.get_item_named), 20)
+        except Exception as e:
+            return f"{rname} raises {type(e).__name__} on the written plan {text!r}"
+        if not (back == real):
+            return f"{rname} reads the written plan {text!r} back as {sexp.dumps(tp.enc_plan(back))[:300]}"
+        if plan[0] == "tt":
+            v1, v2 = tp.validate_tt(prep, real), tp.validate_tt(prep, back)
+            if v1 != v2:
+                return f"validity differs after the round trip through {rname}: {v1} vs {v2} on {text!r}"
+    return None
+
+
 def known_cause(payload):
+    # D-C18-empty-tt-plan: the empty TimeTriggeredPlan is written as the empty text, which carries no plan kind
+    if payload[0] == "ttplan" and payload[3] == ["tt"]:
+        return "D-C18-empty-tt-plan"
     return None
 
 
@@ -472,6 +687,23 @@ def shrink(payload):
         steps = payload[2]
         for i in range(1, len(steps)):
             yield ["plan", payload[1], _without(steps, i), payload[3]]
+    elif k == "ttplan":
+        plan = payload[3]
+        for i in range(1, len(plan)):
+            if len(plan) > 2:
+                yield ["ttplan", payload[1], payload[2], _without(plan, i), payload[4], payload[5]]
+        if plan[0] == "tt":
+            for i in range(1, len(plan)):
+                e = plan[i]
+                for st, du in ((("0", e[3]), (e[0], "1"), (e[0], "-"))):
+                    if (st, du) != (e[0], e[3]):
+                        yield ["ttplan", payload[1], payload[2], plan[:i] + [[st, e[1], e[2], du]] + plan[i + 1:], payload[4], payload[5]]
+    elif k == "ttread":
+        text = tp.codes_text(payload[3])
+        lines = text.split("\n")
+        for i in range(len(lines)):
+            if len(lines) > 1:
+                yield ["ttread", payload[1], payload[2], tp.text_codes("\n".join(_without(lines, i))), payload[4], payload[5]]
 
 
 def _shrink_problem(ps):
@@ -516,7 +748,11 @@ def _shrink_problem(ps):
 MANIFEST = {
     "level_text": ("Lean 4 theorems (Props/C18.lean) about an executable model of PDDLWriter and UPPDDLReader on s-expression "
                    "trees: exact decimal constants round-trip, every expression of the fragment printed by the writer model is "
-                   "read back as its renamed normal form and that normal form has the same denotation, plan text round-trips; "
+                   "read back as its renamed normal form and that normal form has the same denotation, plan text round-trips (sequential "
+                   "plans on trees; time-triggered and sequential plans character by character, Props/C18TTPlan.lean: the text "
+                   "written for a plan whose names are renamed and whose times are >= 0 with a finite decimal expansion is read "
+                   "back by the model of parse_plan_string — splitlines, the three regular expressions, the is_tt switch — as "
+                   "exactly that plan, hence with the same validity); "
                    "the whole-problem round trip `pddlRead (pddlPrint P) = pddlNorm P` is stated in full, proved for its "
                    "expression/number/plan components and evaluated by the compiled model on every generated problem. The model "
                    "is tied to the real writer and reader by a differential correspondence (tokenised text, problem read back, "
